@@ -8,8 +8,8 @@ from harness.core import Check, Finding
 
 KINDS = ['cookies', 'headers', 'status', 'raised', 'errpage', 'crash', 'body',
          'notfound', 'notallowed', 'badpath', 'empty', 'head', 's204',
-         'toolarge', 'badjson', 'errjson', 'crashjson', 'copyhdr', 'badmultipart']
-QUICK_KINDS = ['cookies', 'headers', 'status', 'raised', 'errpage', 'body']
+         'toolarge', 'badjson', 'errjson', 'crashjson', 'copyhdr', 'badmultipart', 'chunked', 'multipart', 'chunkedmp']
+QUICK_KINDS = ['cookies', 'headers', 'status', 'raised']
 
 # application configurations (DESIGN.md 6/C08 kinds "error page"): plain, debug pages, custom
 # @app.error handlers that look at app.response, before/after_request hooks that write and read it
@@ -34,6 +34,16 @@ ERROR_PAIRS = [
     ('crashjson', 'errjson', 'debug'), ('cookies', 'toolarge', 'hooks'), ('toolarge', 'headers', 'hooks'),
     ('status', 'raised', 'hooks'), ('raised', 'status', 'debughooks'), ('copyhdr', 'headers', 'plain'),
     ('headers', 'copyhdr', 'hooks'), ('badmultipart', 'badmultipart', 'debug'), ('badmultipart', 'badjson', 'debug'),
+    ('errpage', 'status', 'plain'), ('cookies', 'errpage', 'plain'), ('body', 'cookies', 'plain'),
+    ('headers', 'body', 'plain'), ('body', 'body', 'plain'),
+]
+
+# bodies whose decoding is interleaved: preemption points inside _iter_chunked / _iter_body / _body_read /
+# MultipartMarkup.parse / FieldStorage.read (all under ombott/request_pkg, which the scheduler traces)
+BODY_PAIRS = [
+    ('chunked', 'chunked', 'plain'), ('chunked', 'body', 'plain'), ('body', 'chunked', 'plain'),
+    ('multipart', 'multipart', 'plain'), ('multipart', 'chunked', 'plain'), ('chunkedmp', 'multipart', 'plain'),
+    ('chunked', 'chunkedmp', 'hooks'),
 ]
 
 
@@ -95,6 +105,21 @@ def mk(kind, p, rid, app=1):
         r['out'] = ('failmultipart',)
         if p % 2:
             r['hdrs'] = dict(r['hdrs'], Accept='application/json')
+    elif kind == 'chunked':
+        # the body travels chunked; chunk sizes (and so the size lines' digits) depend on the request
+        r.update(method='POST', body='f=f%d&g=%s&h=h%d' % (p, 'g' * (3 + p % 4), p), ctype='application/x-www-form-urlencoded',
+                 chunks=[1 + p % 3, 4 + p % 5, 11])
+        r['ops'] = [('body',), ('form', 'f'), ('form', 'g'), ('form', 'h'), ('path',)]
+    elif kind in ('multipart', 'chunkedmp'):
+        # an upload with its own part headers next to two fields; `chunkedmp` sends it chunked
+        r.update(method='POST', boundary='bnd%d' % p,
+                 parts=[('f', None, None, {}, 'f%d' % p),
+                        ('u', 'n%d.txt' % p, 'text/x-p%d' % p, {'X-P': 'pp%d' % p}, 'DATA%d' % p * (1 + p % 3)),
+                        ('g', None, None, {}, 'g%d' % p)])
+        if kind == 'chunkedmp':
+            r['chunks'] = [29 + p % 4, 5, 64]
+        r['ops'] = [('form', 'f'), ('file', 'u', 'filename'), ('file', 'u', 'ctype'), ('file', 'u', 'hdr:X-P'),
+                    ('file', 'u', 'data'), ('form', 'g'), ('file', 'nope', 'filename'), ('body',)]
     elif kind == 'errjson':
         r['hdrs'] = dict(r['hdrs'], Accept='application/json')
         r['ops'] = [('sethdr', 'X-Own', 'o%d' % p), ('query', 'q')]
@@ -185,6 +210,7 @@ def shard(args):
     """worker: one base case and its schedules"""
     kinds, mode, seed, count = args[:4]
     cfg = args[4] if len(args) > 4 else 'plain'
+    part, nparts, cap = args[5] if len(args) > 5 else (0, 1, 0)
     cache = {}
     out = {}
     finds = []
@@ -201,11 +227,15 @@ def shard(args):
         cases = []
         if mode == 'single':
             # every single preemption point of thread 1, handing over to each other thread
+            # (long programs are cut into `nparts` shards; `cap` > 0 thins the points of very long ones)
             n1 = order[0][1]
-            for k in range(1, n1 + 1):
+            stride = 1 if not cap or n1 <= cap else -(-n1 // cap)
+            ks = [k for k in range(1 + (seed % stride), n1 + 1, stride)]
+            ks = [k for i, k in enumerate(ks) if i % nparts == part]
+            for k in ks:
                 for t in range(2, len(kinds) + 1):
                     cases.append([(k, t)])
-            stats['points'] = n1
+            stats['points'] = len(ks)
         else:
             import random
             rng = random.Random(seed)
@@ -301,6 +331,12 @@ class C08(Check):
                 jobs.append(((a, b), 'single', 0, 0, 'plain'))
         for a, b, cfg in ERROR_PAIRS:
             jobs.append(((a, b), 'single', 0, 0, cfg))
+        off = rng.randrange(1000)
+        for a, b, cfg in BODY_PAIRS:
+            nparts = 4
+            for part in range(nparts):
+                # quick: at most ~900 preemption points per pair (every k-th line, the offset varies with the seed)
+                jobs.append(((a, b), 'single', off, 0, cfg, (part, nparts, 0 if thorough else 900)))
         if thorough:
             for a, b, cfg in ERROR_PAIRS:
                 for c2 in CFGS:
